@@ -738,8 +738,10 @@ MG7:
     } else {
       \* sink talkback: merge.rs:115-154
       if (IsEnd(m)) {
+mg_tk_ended_st:
         st[to.n][to.s].ended := TRUE;
       };
+MG8a:
       jx := 1;
 MG8:
       while (jx <= Len(Ups(to.n))) {
@@ -2502,17 +2504,14 @@ DDisp(self) == /\ pc[self] = "DDisp"
                                                                                                                                                                                                                 ELSE /\ pc' = [pc EXCEPT ![self] = "mg_tb_clr"]
                                                                                                                                                                                                           /\ UNCHANGED << obs, 
                                                                                                                                                                                                                           panicked >>
-                                                                                                                                                                         /\ UNCHANGED << st, 
-                                                                                                                                                                                         jx >>
                                                                                                                                                                     ELSE /\ IF IsEnd(m[self])
-                                                                                                                                                                               THEN /\ st' = [st EXCEPT ![to[self].n][to[self].s].ended = TRUE]
-                                                                                                                                                                               ELSE /\ TRUE
-                                                                                                                                                                                    /\ st' = st
-                                                                                                                                                                         /\ jx' = [jx EXCEPT ![self] = 1]
-                                                                                                                                                                         /\ pc' = [pc EXCEPT ![self] = "MG8"]
+                                                                                                                                                                               THEN /\ pc' = [pc EXCEPT ![self] = "mg_tk_ended_st"]
+                                                                                                                                                                               ELSE /\ pc' = [pc EXCEPT ![self] = "MG8a"]
                                                                                                                                                                          /\ UNCHANGED << obs, 
                                                                                                                                                                                          panicked >>
-                                                                                                                                                              /\ sx' = sx
+                                                                                                                                                              /\ UNCHANGED << st, 
+                                                                                                                                                                              sx, 
+                                                                                                                                                                              jx >>
                                                                                                                                                    /\ UNCHANGED << nd, 
                                                                                                                                                                    tasks, 
                                                                                                                                                                    script, 
@@ -3259,7 +3258,7 @@ DDisp(self) == /\ pc[self] = "DDisp"
                                                                                                                                                                                                                                      sx, 
                                                                                                                                                                                                                                      ch >>
                                                                                                                                                                                                      ELSE /\ Assert(FALSE, 
-                                                                                                                                                                                                                    "Failure of assertion at line 1125, column 5.")
+                                                                                                                                                                                                                    "Failure of assertion at line 1127, column 5.")
                                                                                                                                                                                                           /\ pc' = [pc EXCEPT ![self] = "Ret"]
                                                                                                                                                                                                           /\ UNCHANGED << st, 
                                                                                                                                                                                                                           tasks, 
@@ -4442,6 +4441,14 @@ MG2(self) == /\ pc[self] = "MG2"
                              m, lg, sx, ch, lv, snap, ka, ca, gx, ex, nx, fx, 
                              bx, bc, tx, ta, tc, ft, act, sj, tk >>
 
+MG8a(self) == /\ pc[self] = "MG8a"
+              /\ jx' = [jx EXCEPT ![self] = 1]
+              /\ pc' = [pc EXCEPT ![self] = "MG8"]
+              /\ UNCHANGED << ci, st, nd, sk, pi, fi, tasks, now, obs, script, 
+                              ntop, panicked, started, mon, done, stack, fr, 
+                              to, m, lg, sx, ch, lv, snap, ka, ca, gx, ex, nx, 
+                              fx, bx, bc, tx, ta, tc, ft, act, sj, tk >>
+
 MG8(self) == /\ pc[self] = "MG8"
              /\ IF jx[self] <= Len(Ups(to[self].n))
                    THEN /\ IF S(to[self]).tbs[jx[self]] # NoRef
@@ -4778,6 +4785,15 @@ MG7(self) == /\ pc[self] = "MG7"
                              ntop, panicked, started, mon, done, stack, fr, to, 
                              m, lg, sx, jx, ch, lv, snap, ka, ca, gx, ex, nx, 
                              fx, bx, bc, tx, ta, tc, ft, act, sj, tk >>
+
+mg_tk_ended_st(self) == /\ pc[self] = "mg_tk_ended_st"
+                        /\ st' = [st EXCEPT ![to[self].n][to[self].s].ended = TRUE]
+                        /\ pc' = [pc EXCEPT ![self] = "MG8a"]
+                        /\ UNCHANGED << ci, nd, sk, pi, fi, tasks, now, obs, 
+                                        script, ntop, panicked, started, mon, 
+                                        done, stack, fr, to, m, lg, sx, jx, ch, 
+                                        lv, snap, ka, ca, gx, ex, nx, fx, bx, 
+                                        bc, tx, ta, tc, ft, act, sj, tk >>
 
 CCNext(self) == /\ pc[self] = "CCNext"
                 /\ IF st[to[self].n][sx[self]].i = Len(Ups(to[self].n))
@@ -5918,32 +5934,33 @@ Deliver(self) == DStart(self) \/ DDisp(self) \/ K1(self) \/ K2(self)
                     \/ TK6(self) \/ TK7(self) \/ TK8(self) \/ TK9(self)
                     \/ SK1(self) \/ SK2(self) \/ SK3(self) \/ SK4(self)
                     \/ SK6(self) \/ SK5(self) \/ SK7(self) \/ SK8(self)
-                    \/ MG1(self) \/ MG2(self) \/ MG8(self) \/ MG9(self)
-                    \/ mg_late_ld(self) \/ mg_late_ret(self)
+                    \/ MG1(self) \/ MG2(self) \/ MG8a(self) \/ MG8(self)
+                    \/ MG9(self) \/ mg_late_ld(self) \/ mg_late_ret(self)
                     \/ mg_tb_st(self) \/ mg_start_fa(self)
                     \/ mg_greet(self) \/ MG3(self) \/ mg_data(self)
                     \/ MG4(self) \/ mg_ended_st(self) \/ mg_sib_ld(self)
                     \/ MG5(self) \/ mg_sib_term(self) \/ mg_err(self)
                     \/ MG6(self) \/ mg_tb_clr(self) \/ mg_end_fa(self)
-                    \/ mg_term(self) \/ MG7(self) \/ CCNext(self)
-                    \/ CC7(self) \/ CC1(self) \/ CC2(self) \/ CC3(self)
-                    \/ CC4(self) \/ CC5(self) \/ CC6(self) \/ CB1(self)
-                    \/ CB2(self) \/ cb_tb_st(self) \/ cb_start_fs(self)
-                    \/ cb_greet(self) \/ CB3(self) \/ cb_vals_ld(self)
-                    \/ cb_rcu_ld(self) \/ cb_rcu_cas(self)
-                    \/ cb_ndata(self) \/ cb_ndata_fs(self)
-                    \/ cb_ndata_ld(self) \/ cb_emit(self)
-                    \/ cb_emit_ld(self) \/ cb_data(self) \/ CB4(self)
-                    \/ cb_end_fs(self) \/ cb_term(self) \/ CB5(self)
-                    \/ CB6(self) \/ CB7(self) \/ FL1(self) \/ FL2(self)
-                    \/ FL3(self) \/ FL4(self) \/ FL5a(self) \/ FL5(self)
-                    \/ FL6(self) \/ FL7(self) \/ FL8(self) \/ FL9(self)
-                    \/ FL10(self) \/ FL11(self) \/ FL12(self) \/ FL13(self)
-                    \/ FL14(self) \/ FL16(self) \/ FL15(self) \/ FL17(self)
-                    \/ FL18(self) \/ FL19(self) \/ SH1(self) \/ SH2(self)
-                    \/ SH3(self) \/ SH4(self) \/ SH5(self) \/ SH6(self)
-                    \/ SH7(self) \/ SH8(self) \/ SH9(self) \/ SH10(self)
-                    \/ IV1(self) \/ IV2(self) \/ Ret(self) \/ Halt(self)
+                    \/ mg_term(self) \/ MG7(self) \/ mg_tk_ended_st(self)
+                    \/ CCNext(self) \/ CC7(self) \/ CC1(self) \/ CC2(self)
+                    \/ CC3(self) \/ CC4(self) \/ CC5(self) \/ CC6(self)
+                    \/ CB1(self) \/ CB2(self) \/ cb_tb_st(self)
+                    \/ cb_start_fs(self) \/ cb_greet(self) \/ CB3(self)
+                    \/ cb_vals_ld(self) \/ cb_rcu_ld(self)
+                    \/ cb_rcu_cas(self) \/ cb_ndata(self)
+                    \/ cb_ndata_fs(self) \/ cb_ndata_ld(self)
+                    \/ cb_emit(self) \/ cb_emit_ld(self) \/ cb_data(self)
+                    \/ CB4(self) \/ cb_end_fs(self) \/ cb_term(self)
+                    \/ CB5(self) \/ CB6(self) \/ CB7(self) \/ FL1(self)
+                    \/ FL2(self) \/ FL3(self) \/ FL4(self) \/ FL5a(self)
+                    \/ FL5(self) \/ FL6(self) \/ FL7(self) \/ FL8(self)
+                    \/ FL9(self) \/ FL10(self) \/ FL11(self) \/ FL12(self)
+                    \/ FL13(self) \/ FL14(self) \/ FL16(self) \/ FL15(self)
+                    \/ FL17(self) \/ FL18(self) \/ FL19(self) \/ SH1(self)
+                    \/ SH2(self) \/ SH3(self) \/ SH4(self) \/ SH5(self)
+                    \/ SH6(self) \/ SH7(self) \/ SH8(self) \/ SH9(self)
+                    \/ SH10(self) \/ IV1(self) \/ IV2(self) \/ Ret(self)
+                    \/ Halt(self)
 
 SA0(self) == /\ pc[self] = "SA0"
              /\ IF ca[self] = "pull"
@@ -6712,4 +6729,49 @@ Termination == <>(\A self \in ProcSet: pc[self] = "Done")
 \* END TRANSLATION
 
 Finished == done \/ panicked
+
+-----------------------------------------------------------------------------
+(* Threaded scenarios (C18, C19).  The labels below are exactly the points at which the real code,  *)
+(* built with --cfg callbag_verif, calls the scheduler hook (one label per shared-state access of   *)
+(* merge/combine/take on the member-thread paths, plus the probe sink's handler and thread start).   *)
+AccessLabels == {"th_start", "K1",
+                 "tk_taken_fu", "tk_end_ld", "tk_end_st", "tk_up_ld",
+                 "mg_tb_clr", "mg_end_fa", "mg_ended_st", "mg_sib_ld", "mg_tk_ended_st", "MG8",
+                 "cb_vals_ld", "cb_rcu_ld", "cb_rcu_cas", "cb_ndata_fs", "cb_ndata_ld", "cb_emit_ld",
+                 "cb_end_fs"}
+\* the step thread t is about to take is a shared-state access (the exit test of a loop is not)
+AccessStep(t) == /\ pc[t] \in AccessLabels
+                 /\ (pc[t] \in {"mg_sib_ld", "MG8"} => jx[t] <= Len(Ups(to[t].n)))
+MidFlight(t) == pc[t] # "Done" /\ ~AccessStep(t)
+Mover(t) == pc'[t] # pc[t] \/ stack'[t] # stack[t]
+\* between two accesses a thread runs without interruption (that is the granularity of the property and
+\* of the hooked code): a thread that is in the middle of such a segment is the one that moves
+Eager == \A t \in 1..NThr : MidFlight(t) => Mover(t)
+
+ThrFails == \E t \in 1..Len(CFG.thr) : CFG.thr[t].end = "E"
+TotalSent == LET RECURSIVE Sum(_)
+                 Sum(i) == IF i > Len(pi) THEN 0 ELSE pi[i].sent + Sum(i + 1)
+             IN Sum(1)
+AllSentVals == UNION {SentVals(ix) : ix \in 1..Len(pi)}
+
+\* C18 on the monitors, at the end of every threaded behaviour of merge! / combine!
+C18MonOK ==
+  /\ mon.greets = 1
+  /\ mon.bad = {}
+  /\ mon.ends <= 1
+  /\ (~ThrFails => /\ mon.ends = 1 /\ mon.errs = 0
+                   /\ (Kind(CFG.root) = "merge" => mon.ndata = TotalSent /\ mon.seen = AllSentVals))
+  /\ (ThrFails /\ Kind(CFG.root) = "merge" => mon.errs = 1 /\ mon.ends = 0)
+\* C19 on the monitors: take(n) over racing deliveries
+C19MonOK ==
+  LET n == Node(CFG.root).n IN
+  /\ mon.ndata <= n
+  /\ mon.ends + mon.errs <= 1
+  /\ (mon.ndata >= n => mon.ends = 1)
+  /\ \A ix \in 1..Len(pi) : /\ pi[ix].stops <= 1
+                             /\ (mon.ndata >= n /\ ~pi[ix].ended => pi[ix].stops = 1)
+ThrMonOK == (done /\ IsThr) =>
+              IF Kind(CFG.root) = "take" THEN C19MonOK
+              ELSE IF Kind(CFG.root) \in {"merge", "combine"} THEN C18MonOK ELSE TRUE
+NoPanic == ~panicked
 =============================================================================
